@@ -190,6 +190,12 @@ pub struct Probes {
     pub client_timers: Option<usize>,
     pub server_in_flight: Option<usize>,
     pub server_timers: Option<usize>,
+    /// client transport: items waiting in the inbound queue
+    pub inbound_len: usize,
+    /// client transport: items accepted but not yet on the wire
+    pub buffered: usize,
+    pub budget_zero: bool,
+    pub dispatch_alive: bool,
 }
 
 #[derive(Clone, Debug, Serialize)]
